@@ -142,25 +142,13 @@ func explainedByDoubleRead(r *runner, q *node.Query, dup []node.Point) bool {
 }
 
 // explainedByDoubleReadAndPlaces: the flushed generation is read twice AND the parts of a slot in different places are
-// combined with the query function (both causes are open); the second copy of the generation is one more place.
-func explainedByDoubleReadAndPlaces(r *runner, q *node.Query, dup []node.Point) bool {
-	if len(dup) == 0 {
-		return false
-	}
-	alt := r.track.altModel(false, true, nil)
+// combined with the query function (both causes are open): the table file is one place, the window and the compress
+// buffer of the still attached memory database are further places.
+func explainedByDoubleReadAndPlaces(r *runner, q *node.Query, still map[string]string) bool {
+	alt := r.track.altModelDoubleRead(still)
 	if alt == nil {
 		return false
 	}
-	var extra []node.Point
-	for _, p := range dup {
-		cp := p
-		cp.Tags = map[string]string{"zz_place": "flushed-generation-still-attached"}
-		for k, v := range p.Tags {
-			cp.Tags[k] = v
-		}
-		extra = append(extra, cp)
-	}
-	alt.Add(extra)
 	_, _, diffs, status := r.run(q, alt)
 	return status == "" && len(diffs) == 0
 }
@@ -250,6 +238,7 @@ func runParked(res *caseResult, idx int, dir, tier string, rnd *rand.Rand) {
 				}
 			}
 			committed := node.Level0Files(target) > l0Before
+			var still map[string]string
 			if imm {
 				res.count("parked_with_immutable_memdb", 1)
 			}
@@ -257,6 +246,7 @@ func runParked(res *caseResult, idx int, dir, tier string, rnd *rand.Rand) {
 				res.count("parked_with_immutable_memdb_and_committed_table", 1)
 				// the table file of the parked generation is part of the family's version now (and the generation is
 				// still attached as immutable memory database): the labelling tracker has to know the file
+				still = r.track.snapshotImmutable(target.FamilyTime(), 0)
 				r.track.flushEnd(target.FamilyTime(), 0)
 			}
 			inside := func(tag string) {
@@ -297,7 +287,7 @@ func runParked(res *caseResult, idx int, dir, tier string, rnd *rand.Rand) {
 						class = "C11/query-error/during-flush/" + normErr(qr.Err)
 					case imm && committed && explainedByDoubleRead(r, q, generation):
 						class = "C11/family/flush-commit-window/table-file-and-flushed-memdb-both-read"
-					case imm && committed && explainedByDoubleReadAndPlaces(r, q, generation):
+					case imm && committed && explainedByDoubleReadAndPlaces(r, q, still):
 						class = "C11/combined/places+flush-commit-window"
 					default:
 						fs, _ := queryFields(q)
